@@ -172,6 +172,28 @@ CHECKS.update({
     ),
 })
 
+CHECKS.update({
+    "C03": (
+        "Hypothesis-generated differential testing against NumPy's namesakes (values, shape, dtype), tracked and untracked",
+        "Generated search over functions x operand kinds (tensor, ndarray, python and NumPy scalars) x 8 dtypes x "
+        "layouts x keyword options; NumPy on the underlying arrays is the oracle for shape, dtype and values "
+        "(array_equal with equal_nan), both-raise counts as agreement, and the tracked and no_autodiff evaluations must "
+        "coincide. Exploration only.",
+        "NumPy is the oracle; small values plus a large-magnitude class; one test-pinned defect (the x**1 / x**2 "
+        "short-cut ignoring the exponent's dtype) is a recorded known finding.",
+        "DESIGN.md §3 C03",
+    ),
+    "C11": (
+        "Hypothesis-generated operands run through every spelling of an operation (function, NumPy dispatch, method, operators incl. reflected/augmented, out=, where=, dtype=); equality of values, dtype, constant flag and gradients",
+        "Generated search over operations, operands, flags and options; all available spellings must agree with the "
+        "mg.f baseline bit-for-bit in value, dtype and constant flag and in every operand gradient after the same "
+        "backward(g); non-differentiable NumPy functions must return plain arrays equal to NumPy, and the const-only "
+        "family must raise for any non-constant tensor operand or out=. Exploration only.",
+        "Baseline spelling mg.f is itself checked against NumPy by C03 and for gradients by C02.",
+        "DESIGN.md §3 C11",
+    ),
+})
+
 NOT_YET = {
 }
 
